@@ -43,6 +43,7 @@ type Program struct {
 	declCache map[*types.Func]*ast.FuncDecl
 	clockVisiting map[*types.Var]bool
 	mutFns    map[*ssa.Function]bool
+	succCache map[*ssa.Function][]*ssa.Function
 	rootReach map[*ssa.Function]bool
 	memTrans  []Trans
 	memFlow   *stateFlow
